@@ -569,6 +569,16 @@ func runProgram(t *rapid.T, focus string) {
 	c.close()
 
 	// report
+	if hb := c.wire.reportedHeadsBelowCommit(); len(hb) > 0 {
+		if snapHeadKnown() {
+			// the root cause of a listed finding occurred in this history: whatever follows from it is not counted
+			// again (the scripted TestKF_* re-confirm it on every run); the case is counted as excluded
+			evid.Excluded(focus, kfSnapHead)
+			evid.Case(focus, false, strings.Join(s.steps, "; ")+" EXCLUDED "+hb[0], "excluded_by_known_finding")
+			return
+		}
+		s.violation("C04: %s (the node does not report its true head)", hb[0])
+	}
 	var mine []string
 	for _, v := range append(append([]string{}, c.wire.violations...), s.viol...) {
 		if strings.HasPrefix(v, focus+":") {
@@ -605,6 +615,14 @@ const kfSwapBehind = "C01:swap-elects-node-behind-a-fenced-removed-node"
 // which was later rolled back (C02) and a log that differs from an acknowledged entry at its offset (C03).
 const kfSwapBehindC02 = "C02:swap-elects-node-behind-a-fenced-removed-node"
 const kfSwapBehindC03 = "C03:swap-elects-node-behind-a-fenced-removed-node"
+
+// A node that has installed a snapshot reports the head of its emptied log to NewTerm, not the offset its database
+// is at. Listed once per property whose oracle it trips.
+const kfSnapHead = "snapshot-installed-node-reports-empty-log-head"
+
+func snapHeadKnown() bool {
+	return evid.Known("C01:"+kfSnapHead) || evid.Known("C02:"+kfSnapHead) || evid.Known("C03:"+kfSnapHead) || evid.Known("C04:"+kfSnapHead)
+}
 
 func swapFindingKnown() bool {
 	return evid.Known(kfSwapBehind) || evid.Known(kfSwapBehindC02) || evid.Known(kfSwapBehindC03)
@@ -1052,13 +1070,18 @@ func (s *caseState) checkRealTimeAndReads(events []Event, pos map[string]logPos,
 // checkFencingHistory: C04 clauses over the recorded history.
 func (s *caseState) checkFencingHistory(events []Event, logs map[string][]*proto.LogEntry) {
 	type fence struct {
-		seq  int64
-		term int64
+		seq        int64
+		term       int64
+		headOffset int64
 	}
 	fences := map[string][]fence{}
 	for _, e := range events {
 		if e.Kind == "newterm.answered" {
-			fences[e.From] = append(fences[e.From], fence{e.Seq, e.Term})
+			ho := int64(-1)
+			if e.Head != nil {
+				ho = e.Head.Offset
+			}
+			fences[e.From] = append(fences[e.From], fence{e.Seq, e.Term, ho})
 		}
 	}
 	// (2) no ack on a stream of a lower term after the fence (acks rejected by the torn-down stream do not count)
@@ -1067,7 +1090,9 @@ func (s *caseState) checkFencingHistory(events []Event, logs map[string][]*proto
 			continue
 		}
 		for _, f := range fences[e.From] {
-			if e.Seq > f.seq && e.Term < f.term {
+			// an ack for an offset the node had included in the head it reported is no progress (the sync that NewTerm
+			// itself waits for completes the pending acknowledgement of exactly those entries)
+			if e.Seq > f.seq && e.Term < f.term && e.Offset > f.headOffset {
 				s.violation("C04: node %s sent an ack for offset %d on a term-%d stream (event #%d) after it had answered NewTerm(%d) (event #%d)",
 					e.From, e.Offset, e.Term, e.Seq, f.term, f.seq)
 				break
